@@ -699,7 +699,8 @@ func (messagesMapper) Save(msg *types.Message, attachmentURLs []string, readBySe
 		}
 	}
 
-	if len(attachmentURLs) > 0 {
+	if len(attachmentURLs) > 0 && mediaHandler != nil {
+		// (Without a media handler there are no uploads to link the message to.)
 		var attachments []string
 		for _, url := range attachmentURLs {
 			// Convert attachment URLs to file IDs.
@@ -1047,6 +1048,11 @@ func (fileMapper) DeleteUnused(olderThan time.Time, limit int) error {
 // LinkAttachments connects earlier uploaded attachments to a message or topic to prevent it
 // from being garbage collected.
 func (fileMapper) LinkAttachments(topic string, msgId types.Uid, attachments []string) error {
+	if mediaHandler == nil {
+		// Large file handling is not configured: there are no uploads to link.
+		return nil
+	}
+
 	// Convert attachment URLs to file IDs.
 	var fids []string
 	for _, url := range attachments {
